@@ -76,6 +76,11 @@ GENERATORS = [
                 "py/miniconf-mqtt/miniconf/common.py"), "Py.lean"),
     ("gen_transcode", ("miniconf/src/node.rs", "miniconf/src/jsonpath.rs"), "Transcode.lean"),
     ("gen_keys", ("miniconf/src/key.rs", "miniconf/src/iter.rs", "miniconf/src/packed.rs"), "Keys.lean"),
+    # the OUTPUT of the derive macro (its own source, run by /verif/expander) on every type of the generated corpus
+    ("gen_derive", ("miniconf_derive/src/tree.rs", "miniconf_derive/src/field.rs", os.path.join(HARNESS, "src", "gen_types.rs")),
+     "Derive.lean"),
+    ("gen_derive_ties", ("miniconf_derive/src/tree.rs", "miniconf_derive/src/field.rs", os.path.join(HARNESS, "src", "gen_types.rs")),
+     os.path.join("..", "Lemmas", "GenTieDerive.lean")),
 ]
 
 
